@@ -9,7 +9,7 @@ for f in sorted(glob.glob(os.path.join(HERE, 'seeded', '*', 'meta.json'))):
         m.get('id'), (m.get('site') or '').replace('|', '/'),
         (m.get('summary') or '').replace('|', '/').replace('\n', ' ')[:260],
         (m.get('needs_to_manifest') or '').replace('|', '/').replace('\n', ' ')[:200],
-        'yes, concrete input' if m.get('detected_with_concrete_input') else ('yes, no-failing-input-found' if m.get('detected') else '**MISSED**'),
+        'yes, concrete input' if m.get('detected_with_concrete_input') else ('yes, no-failing-input-found' if m.get('detected') else ('no: outside the reading (see meta.json disposition)' if m.get('disposition') else '**MISSED**')),
         ', '.join(str(c) for c in clauses)))
 table = ('| id | site | change | needs to manifest | caught by `bin/check <PID> --tier quick` | failing codes (1 = model mismatch, 2x = clause of the property) |\n'
          '|---|---|---|---|---|---|\n' + '\n'.join(rows))
